@@ -254,7 +254,7 @@ libc = "0.2"
 
 [[bin]]
 name = "compile"
-path = "{verif}/fuzz-harness/compile.rs"
+path = "compile.rs"
 test = false
 doc = false
 bench = false
@@ -281,6 +281,8 @@ def build_fuzz(target="compile"):
     _write_if_changed(os.path.join(outer, "src", "lib.rs"), "")
     _write_if_changed(os.path.join(g, "Cargo.toml"), FUZZ_MANIFEST.format(verif=VERIF, repo=repo()))
     vcsrc = os.path.join(_gen_vc(), "src")
+    with open(os.path.join(VERIF, "fuzz-harness", "compile.rs.in")) as f:
+        _write_if_changed(os.path.join(g, "compile.rs"), f.read().replace("@REPO@", repo()))
     with open(os.path.join(VERIF, "fuzz-harness", "decode.rs.in")) as f:
         _write_if_changed(os.path.join(g, "decode.rs"), f.read().replace("@VCSRC@", vcsrc))
     lock = os.path.join(g, "Cargo.lock")
